@@ -1,8 +1,9 @@
 Require Extraction.
 Require Import ExtrOcamlBasic.
-From Pygls Require Import Base.PyStr Model.Codec Spec.CodecSpec.
+From Pygls Require Import Base.PyStr Model.Codec Spec.CodecSpec Model.DocQuery Spec.DocSpec Spec.DocQuerySpec.
 Extraction Language OCaml.
 Extraction "../ocaml/gen/c11_model.ml"
   lsp_lines client_num_units loop_width position_from_client_units position_to_client_units
   range_from_client_units range_to_client_units
-  true_width units spec_from spec_to from_guard to_guard guard_str guard_char.
+  true_width units spec_from spec_to from_guard to_guard guard_str guard_char
+  offset_at_position word_at_position spec_offset spec_word query_guard_widths offset_guard_units.
